@@ -77,7 +77,8 @@ func init() {
 	Register(&Prop{
 		ID:    "C06",
 		Title: "DISTINCT removes exactly the duplicates; UNION [ALL] concatenates [and dedups]",
-		Rule: "rapid draws tables with heavy duplication (value pools of 2-3 per column; about 3% of the DISTINCT / UNION cases expand table t to 200-700 rows by a recipe, its first column spread over 2-400 values), select lists of columns and simple expressions, and " +
+		Rule: "[Dimensions added in rounds p-r of the seeded-defect evaluation: in a sixth of the cases every text of the document is re-encoded as Latin-1 bytes (strings that are not valid UTF-8; pools hold é / è); a sixth of the enveloped cases run after 1-3 failing statements.] " +
+			"rapid draws tables with heavy duplication (value pools of 2-3 per column; about 3% of the DISTINCT / UNION cases expand table t to 200-700 rows by a recipe, its first column spread over 2-400 values), select lists of columns and simple expressions, and " +
 			"either SELECT DISTINCT (oracle: reference first-occurrence sequence; also SELECT DISTINCT * over heterogeneous rows whose key sets differ at equal width, and SELECT DISTINCT over a grouped aggregate-only select list) or a union chain of 2-4 branches (a fifth of the later branches rename their output columns) " +
 			"with any mix of UNION / UNION ALL (a quarter of the chains of 3+ branches put two neighbouring branches in parentheses as a union of their own, mostly with a LIMIT / OFFSET of its own - a cutting window over a de-duplicated pair admits any subset of that size, all of them are tried; a fifth of the branches parenthesised with a LIMIT / OFFSET of their own; two fifths of the chains made of aggregate branches, whole or grouped, with the same textual aggregates) and an optional trailing LIMIT, half of them with an OFFSET in either spelling; SELECT DISTINCT without ORDER BY also under LIMIT / OFFSET (exact window of the first-occurrence sequence) (oracle: left-associative reference; pure UNION ALL chains compared " +
 			"as sequence, others as multiset with the reference's multiplicities; LIMIT n OFFSET m: length of the window [m, m+n) of the combined result, exact window for pure UNION ALL " +
